@@ -51,7 +51,8 @@ def normalise(sink: List[Dict[str, Any]]) -> List[Dict[str, Any]]:
 def replay(rec: Dict[str, Any]) -> Dict[str, Any]:
     """Replay one history; returns {'viol': divergences, 'events': hook events of the caching run}."""
     viol = _replay(rec)
-    return {"viol": viol, "events": rec.pop("_events", [])}
+    ev = rec.pop("_events", [])
+    return {"viol": viol, "events": ev if rec.get("_trace", True) else []}
 
 
 def _replay(rec: Dict[str, Any]) -> List[Tuple[str, Dict[str, Any], str]]:
@@ -179,7 +180,11 @@ def run(chk: Check, tier: str, seed: int) -> None:
         if i % 40 == 0:
             x["_repeat"] = True
     traces: List[Dict[str, Any]] = []
-    for rec, res in zip(recs, core.pmap(replay, recs)):
+    cap = 12000 if tier == "quick" else 60000
+    stride = max(1, len(recs) // cap)   # the histories whose hook events go to TLC: evenly spread over the enumeration
+    for ri, x in enumerate(recs):
+        x["_trace"] = ri % stride == 0     # the others do not ship their events back (memory)
+    for ri, (rec, res) in enumerate(zip(recs, core.pmap(replay, recs))):
         chk.traces += 2
         live = {h["it"] for h in rec["hist"] if h["act"] == "open"}
         if len(live) >= 2:
@@ -190,7 +195,7 @@ def run(chk: Check, tier: str, seed: int) -> None:
             continue
         for sig, case, what in res["viol"]:
             chk.violation(sig, case, what)
-        if res["events"] and (tier != "quick" or len(traces) < 12000):
+        if res["events"] and ri % stride == 0 and len(traces) < cap + 1000:
             traces.append({"id": len(traces) + 1, "events": res["events"], "_rec": rec})
     # ---- code -> specification: the hook events of every history validated by TLC (Trace_Cache.tla)
     if traces:
@@ -202,7 +207,7 @@ def run(chk: Check, tier: str, seed: int) -> None:
             with open(pth, "w") as f:
                 for t in traces[k::nsh]:
                     f.write(json.dumps({"id": t["id"], "events": t["events"]}) + "\n")
-            jobs.append(("Trace_Cache", "SPECIFICATION Spec\nPROPERTY Verdicts\n", dict(env={"TRACE_FILE": str(pth)}, workers=2, timeout=3000)))
+            jobs.append(("Trace_Cache", "SPECIFICATION Spec\nPROPERTY Verdicts\n", dict(env={"TRACE_FILE": str(pth)}, workers=2, timeout=3000, heap="4g")))
         nev = sum(len(t["events"]) for t in traces)
         for r in core.tlc_parallel(jobs, threads=8):
             chk.add_tlc(r)
